@@ -8,10 +8,13 @@ import (
 	"path/filepath"
 	"sort"
 	"strings"
+	"sync"
+	"time"
 
 	"github.com/rminnich/go9p"
 
 	"verif/core"
+	"verif/memconn"
 	"verif/wire"
 )
 
@@ -55,6 +58,10 @@ func c14Cases(tier string, seed int64) []core.Case {
 		}
 	}
 	cases = append(cases, core.Case{ID: "manyfiles", Run: c14Many})
+	for _, msize := range []uint32{1024, 8192} {
+		msize := msize
+		cases = append(cases, core.Case{ID: fmt.Sprintf("concurrent-readers/msize=%d", msize), Run: func(ctx *core.Ctx) core.Result { return c14Concurrent(ctx, msize) }})
+	}
 	return cases
 }
 
@@ -459,6 +466,109 @@ func cntClass(c, iou int) string {
 }
 
 // c14Many: 32 files open at once, interleaved reads.
+// c14Concurrent: several goroutines read and write their own files through one client at the same time, over a
+// transport on which the server's replies go out slowly and in pieces (a congested peer): every byte still has to be
+// the file's.
+func c14Concurrent(ctx *core.Ctx, msize uint32) core.Result {
+	var res core.Result
+	e, err := newEnv(ctx, fmt.Sprintf("c14c%d", msize), true, 1<<20)
+	if err != nil {
+		res.Inconclusive = err.Error()
+		return res
+	}
+	defer e.cleanup()
+	cli, srv := memconn.Pipe("client", "ufs")
+	srv.MaxWrite = int(msize) / 3
+	srv.BeforeWrite = func(n int) { time.Sleep(150 * time.Microsecond) }
+	e.s.Srv.NewConn(srv)
+	c, err := go9p.Connect(cli, msize, true)
+	if err != nil {
+		res.Inconclusive = err.Error()
+		return res
+	}
+	defer c.Unmount()
+	root, err := c.Attach(nil, go9p.OsUsers.Uid2User(0), "")
+	if err != nil {
+		res.Inconclusive = err.Error()
+		return res
+	}
+	c.Root = root
+	iou := int(msize) - go9p.IOHDRSZ
+	r := core.NewRand(ctx.Seed, fmt.Sprintf("c14conc/%d", msize))
+	const G = 6
+	contents := make([][]byte, G)
+	for g := 0; g < G; g++ {
+		contents[g] = r.Bytes(4*iou + 100*g + 7)
+		// each file's bytes are recognisably its own
+		for i := range contents[g] {
+			contents[g][i] = contents[g][i]&0x0F | byte(g+1)<<4
+		}
+		_ = os.WriteFile(filepath.Join(e.root, fmt.Sprintf("cc%d", g)), contents[g], 0o644)
+	}
+	var wg sync.WaitGroup
+	var mu sync.Mutex
+	for g := 0; g < G; g++ {
+		wg.Add(1)
+		go func(g int) {
+			defer wg.Done()
+			f, err := c.FOpen(fmt.Sprintf("cc%d", g), go9p.ORDWR)
+			if err != nil {
+				mu.Lock()
+				res.Violate("C14;concurrent;open-failed", err.Error(), nil)
+				mu.Unlock()
+				return
+			}
+			defer f.Close()
+			want := contents[g]
+			for round := 0; round < 5; round++ {
+				buf := make([]byte, len(want)+10)
+				n, err := f.Readn(buf, 0)
+				mu.Lock()
+				res.Evals++
+				if (err != nil && err != io.EOF) || n != len(want) || !bytes.Equal(buf[:n], want) {
+					bad := -1
+					for i := 0; i < n && i < len(want); i++ {
+						if buf[i] != want[i] {
+							bad = i
+							break
+						}
+					}
+					res.Violate("C14;concurrent;read-differs", fmt.Sprintf("reader %d of %d concurrent ones: Readn of a %d-byte file returned (%d, %v); first wrong byte at %d (it carries the mark of file %d)", g, G, len(want), n, err, bad, func() int {
+						if bad >= 0 {
+							return int(buf[bad]>>4) - 1
+						}
+						return -1
+					}()), nil)
+				}
+				mu.Unlock()
+				// and a write of its own in between
+				off := (round * 37) % len(want)
+				patch := []byte{byte(g+1)<<4 | byte(round)}
+				if m, err := f.WriteAt(patch, int64(off)); err == nil && m == 1 {
+					want[off] = patch[0]
+				}
+			}
+			host, _ := os.ReadFile(filepath.Join(e.root, fmt.Sprintf("cc%d", g)))
+			if !bytes.Equal(host, want) {
+				mu.Lock()
+				res.Violate("C14;concurrent;write-differs", fmt.Sprintf("writer %d of %d concurrent ones: the host file differs from what was written", g, G), nil)
+				mu.Unlock()
+			}
+		}(g)
+	}
+	done := make(chan struct{})
+	go func() { wg.Wait(); close(done) }()
+	select {
+	case <-done:
+	case <-time.After(4 * W):
+		res.Inconclusive = "c14: concurrent readers did not finish"
+	}
+	res.Sig(fmt.Sprintf("concurrent|%d", msize))
+	res.Count("concurrent_readers", G)
+	res.Sample(map[string]interface{}{"scenario": "concurrent readers/writers through one client over a slow, fragmenting server-side transport", "msize": msize, "goroutines": G})
+	return res
+}
+
 func c14Many(ctx *core.Ctx) core.Result {
 	var res core.Result
 	e, err := newEnv(ctx, "c14m", true, 1<<20)
